@@ -273,6 +273,25 @@ impl Monitor for C18 {
         "C18"
     }
     fn on_landed(&mut self, ev: &Landed, cov: &mut Coverage) -> Vec<Violation> {
+        // a position closed by an earlier instruction of the same transaction is gone for the later ones: no instruction may
+        // succeed on what the close left behind
+        if ev.out.ok && ev.tx.ixs.len() > 1 {
+            let views = ev.ix_views();
+            let mut closed: Vec<Pubkey> = Vec::new();
+            for v in &views {
+                if let Some(c) = wpix::decode(v.ix) {
+                    if let Some(pk) = c.acct("position").or_else(|| c.acct("bundled_position")) {
+                        if closed.contains(&pk) {
+                            return vec![viol("closed_position_used", ev.idx, format!("{} succeeds on position {} although an earlier instruction of the same transaction closed it", c.name(), pk))];
+                        }
+                        if matches!(c.name(), "close_position" | "close_bundled_position" | "close_position_with_token_extensions") {
+                            closed.push(pk);
+                            cov.probe("position_closed_inside_a_longer_transaction");
+                        }
+                    }
+                }
+            }
+        }
         let mut out = Vec::new();
         // single-instruction transactions: the outcome of the instruction is the outcome of the transaction
         let views: Vec<(usize, &crate::rt::Ix, &Ledger, Option<&Ledger>, bool, Option<u32>)> = if ev.out.ok {
